@@ -31,6 +31,7 @@ PROPS = {
         "rule": "op 23: every cut position 0..len-1 of seeded well-formed messages (all payload kinds, both storage modes), a third with a filter; the skipper on every cut of storage-header messages.",
     },
     "C06": {
+        "extra_property_files": ["C06b"],
         "rule": "op 12 on pattern-dense strings over {D,L,T,01,00}; op 24 junk ++ message ++ rest with junk tails that are partial patterns/near misses; op 29 streams of 1-5 messages separated by junk.",
     },
     "C07": {
@@ -44,6 +45,7 @@ PROPS = {
                         "Interrupted is not retried by futures' read_exact; the property does not quantify over it for the async reader and neither does the theorem"],
     },
     "C09": {
+        "extra_property_files": ["C09b"],
         "rule": "op 26: well-formed messages (a third forced to log messages incl. invalid levels) x filter configurations (each criterion absent/present, sets containing/not containing the message's ids, duplicated ids, counts around the set sizes, all level numbers); op 27 both conversions incl. all 256 level numbers.",
     },
     "C11": {
@@ -72,6 +74,7 @@ PROPS = {
         "rule": "op 28: dialect (unused type-info bits, bool with any TYLE, NUL-padded/invalid-UTF-8 ids, interior NULs, size-0 strings, reserved SCOD, unknown MSTP/MTIN) and mutated inputs; the chain parse -> serialise -> parse -> serialise is compared token for token.",
     },
     "C19": {
+        "extra_property_files": ["C19b"],
         "rule": "op 3: all strings of length <= 3 (quick) / <= 4 (thorough) over the 25-byte boundary alphabet x sizes 0..6, random strings up to 70000 bytes x sizes incl. 0 and 65535; op 8 on messages whose ids are arbitrary bytes.",
     },
     "C14": {
@@ -80,6 +83,7 @@ PROPS = {
         "rule": "op 7 on all 256 MSIN bytes; op 8 on complete messages for all 256 HTYP bytes (two variants each); op 4 on boundary and seeded type-info words; plus the ti-sweep: the model's table of the 2^18 low words (reduction proved as c14_ti_low) against TypeInfo::try_from/as_bytes on 2^18 x 64 high-bit patterns (quick) or all 2^32 words (thorough), with the independent oracle evaluated on every word. In the sweep a word counts as non-trivial when the model accepts it.",
     },
     "C10": {
+        "extra_property_files": ["C10b"],
         "rule": "op 32: streams of 0-5 parts of 0-4 well-formed messages each (ids from a small vocabulary so they repeat, incl. the literal NONE and the empty id; half log messages incl. invalid levels; with/without extended header and ECU id; both storage modes), scanned by collect_statistics through the real reader with a recording collector; the parts merged left-to-right, right-to-left, balanced and right-nested.",
         "assumptions": ["usize counters modelled as unbounded N", "FxHashMap iteration order abstracted (results compared sorted by id)"],
     },
